@@ -406,9 +406,10 @@ pub fn process<I: BufRead, O: Write>(
                             insert_it = false;
                         }
                         match s.next() {
-                            Some(string) => {
+                            Some(_) => {
+                                // Go on after the `/*`, in the whole line (see below)
                                 in_multiline_comments = true;
-                                remaining = string;
+                                remaining = &remaining[s2.len() + 2..];
                             }
                             _ => break,
                         }
@@ -419,9 +420,11 @@ pub fn process<I: BufRead, O: Write>(
                         insert_it = false;
                     }
                     match s.next() {
-                        Some(string) => {
+                        Some(_) => {
+                            // Go on after the `/*`, in the whole line: a `//` inside the
+                            // comment must not hide the end of the comment
                             in_multiline_comments = true;
-                            remaining = string;
+                            remaining = &remaining[s2.len() + 2..];
                         }
                         _ => break,
                     }
